@@ -109,6 +109,7 @@ RINGS = {
     "thiophene": ["c", "c", "s", "c", "c"],
     "furan": ["c", "c", "o", "c", "c"],
     "pyrimidine": ["c", "n", "c", "n", "c", "c"],
+    "imidazole": ["n", "c", "c", "n", "c"],  # N-substituted (the motif always hangs off a parent atom)
 }
 
 
